@@ -53,7 +53,7 @@ type evidence struct {
 }
 
 func writeEvidence(pc *propCfg, ev *evidence) {
-	dir := filepath.Join(verifHome, "evidence")
+	dir := envOr("VERIF_EVIDENCE_DIR", filepath.Join(verifHome, "evidence"))
 	os.MkdirAll(dir, 0o755)
 	b, _ := json.MarshalIndent(ev, "", " ")
 	tmp := filepath.Join(dir, pc.id+".json.tmp")
@@ -209,15 +209,15 @@ func checkCmd(id, tier string) int {
 			}
 		}
 		if okCount == 0 || (!pc.race && okCount < pc.confirmRuns) {
-			os.MkdirAll(filepath.Join(verifHome, "replays"), 0o755)
-			p := filepath.Join(verifHome, "replays", fmt.Sprintf("%s-nonreplaying-%d.json", id, v.Seed))
+			os.MkdirAll(replayDir(), 0o755)
+			p := filepath.Join(replayDir(), fmt.Sprintf("%s-nonreplaying-%d.json", id, v.Seed))
 			b, _ := json.MarshalIndent(rf, "", " ")
 			os.WriteFile(p, b, 0o644)
 			trouble("a failure did not replay (%d/%d) — forgotten nondeterminism in the machinery; diagnostics kept at %s", okCount, pc.confirmRuns, p)
 		}
 		min.Note = fmt.Sprintf("confirmed in %d/%d fresh processes; minimised with %d candidate executions", okCount, pc.confirmRuns, used)
-		os.MkdirAll(filepath.Join(verifHome, "replays"), 0o755)
-		p := filepath.Join(verifHome, "replays", fmt.Sprintf("%s-%d-%s.json", id, v.Seed, sanitize(v.Signature)))
+		os.MkdirAll(replayDir(), 0o755)
+		p := filepath.Join(replayDir(), fmt.Sprintf("%s-%d-%s.json", id, v.Seed, sanitize(v.Signature)))
 		b, _ := json.MarshalIndent(min, "", " ")
 		os.WriteFile(p, b, 0o644)
 		reported = append(reported, confirmed{min, p})
@@ -402,3 +402,5 @@ func selftestCmd(id string) int {
 	}
 	return 0
 }
+
+func replayDir() string { return envOr("VERIF_REPLAY_DIR", filepath.Join(verifHome, "replays")) }
